@@ -589,15 +589,64 @@ def split_top(s):
 FN_RE = re.compile(r"((?:#\[[^\]]*\]\s*)*)(?:pub(?:\([a-z:]+\))?\s+)?(?:const\s+)?(?:unsafe\s+)?fn\s+(\w+)\s*(?:<[^>]*>)?\s*\(")
 
 
+IMPL_RE = re.compile(r"\bimpl\b\s*(?:<[^{;]*?>\s*)?(?:(?:[\w:]+(?:<[^{;]*?>)?)\s+for\s+)?([A-Za-z_]\w*)\s*(?:<[^{;]*?>)?\s*(?:where[^{;]*)?\{")
+
+
+def impl_blocks(src):
+    """[(start, end, SelfTypeName, trait or None)] of the impl blocks"""
+    out = []
+    for m in IMPL_RE.finditer(src):
+        try:
+            end = match_brace(src, m.end() - 1)
+        except Unsupported:
+            continue
+        tm = re.search(r"([\w:]+)(?:<[^{;]*?>)?\s+for\s+" + re.escape(m.group(1)), m.group(0))
+        out.append((m.start(), end, m.group(1), tm.group(1).split("::")[-1] if tm else None))
+    return out
+
+
+STRUCTS = {}
+BLOCK_SIZES = {}
+ASSOC_TYPES = {}
+
+
 def find_functions(path, cfg=()):
-    """{name: Fn} for every fn of the file (after macro expansion) that parses; cfg = active cfg flags"""
+    """{name: Fn} for every fn of the file (after macro expansion) that parses; cfg = active cfg flags.
+    Methods are additionally stored as `Type::name`."""
     src = expand_macros(strip_comments(open(path).read()))
     fns, errs = {}, {}
+    impls = impl_blocks(src)
+    for (a, b, ty, tr) in impls:
+        body = src[a:b]
+        bm = re.search(r"type\s+BlockSize\s*=\s*(?:\w+::)*U(\d+)\s*;", body)
+        if bm and tr == "BlockSizeUser":
+            BLOCK_SIZES[ty] = int(bm.group(1))
+        for am in re.finditer(r"type\s+(\w+)\s*=\s*([^;]+);", body):
+            ASSOC_TYPES[(ty, am.group(1))] = am.group(2).strip()
+    for m in re.finditer(r"\bstruct\s+(\w+)\s*(?:<[^{;(]*?>)?\s*(?:where[^{;]*)?\{", src):
+        try:
+            end = match_brace(src, m.end() - 1)
+            fields = []
+            for f in split_top(src[m.end():end - 1]):
+                f = re.sub(r"#\[[^\]]*\]", "", f).strip()
+                fm = re.match(r"(?:pub(?:\([a-z:]+\))?\s+)?(\w+)\s*:\s*(.+)$", f, re.S)
+                if fm:
+                    try:
+                        fields.append((fm.group(1), P(lex(fm.group(2))).ty()))
+                    except Unsupported:
+                        fields.append((fm.group(1), ("name", "?", [])))
+            STRUCTS.setdefault(m.group(1), fields)
+        except Unsupported:
+            pass
     for m in FN_RE.finditer(src):
         name = m.group(2)
         attrs = re.findall(r"#\[([^\]]*)\]", m.group(1))
         if not cfg_active(attrs, cfg):
             continue
+        owner = None
+        for (a, b, ty, tr) in impls:
+            if a <= m.start() < b and (owner is None or a > owner[0]):
+                owner = (a, ty)
         try:
             pend = match_paren(src, m.end() - 1)
             sig = src[m.end():pend - 1]
@@ -611,18 +660,27 @@ def find_functions(path, cfg=()):
             for p in split_top(sig):
                 if not p.strip():
                     continue
+                ps = p.strip()
+                sm = re.fullmatch(r"(&\s*(?:'\w+\s+)?)?(mut\s+)?self", ps)
+                if sm:
+                    params.append((("pid", "self"), ("self", bool(sm.group(1)), bool(sm.group(2)))))
+                    continue
                 pp = P(lex(p))
-                if pp.at("self") or pp.at("&"):
-                    pass
                 pat = pp.pat()
                 pp.eat(":")
                 params.append((pat, pp.ty()))
             ret = P(lex(rm.group(1))).ty() if rm.group(1) else None
             body = P(lex(src[bstart:bend])).block()
+            fn = Fn(name, params, ret, body, attrs, src[m.start():bend])
+            fn.owner = owner[1] if owner else None
+            if owner:
+                fns.setdefault(f"{owner[1]}::{name}", fn)
             if name not in fns:
-                fns[name] = Fn(name, params, ret, body, attrs, src[m.start():bend])
+                fns[name] = fn
         except Unsupported as e:
             errs[name] = str(e)
+            if owner:
+                errs[f"{owner[1]}::{name}"] = str(e)
     consts = {}
     for m in re.finditer(r"\b(?:const|static)\s+(\w+)\s*:\s*", src):
         # scalar or array constants with literal initialisers
@@ -715,6 +773,18 @@ class Ref:
         self.slot = slot
 
 
+class Struct:
+    def __init__(self, ty, fields):
+        self.ty, self.fields = ty, fields  # name -> Slot
+
+
+class InOutV:
+    """`InOut<Block>`: the input bytes and the (initially unwritten) output bytes"""
+
+    def __init__(self, inp, out):
+        self.inp, self.out = inp, out
+
+
 class Table:
     """a constant table of the crate, not yet fully indexed: Gen.Tables name, dims, element width, flat values"""
 
@@ -741,6 +811,8 @@ class Exec:
         self.lens = lens or {}
         self.packed = packed or {}
         self.outs_only = set(outs_only)
+        self.generics = {}
+        self.self_ty = None
         self.tables = tables or {}
         self.crate = crate
         self.lines = []
@@ -768,15 +840,33 @@ class Exec:
 
     # ---- types ------------------------------------------------------------------------------
     def resolve(self, t):
-        while t[0] == "name" and t[1] in self.aliases:
-            t = self.aliases[t[1]]
+        for _ in range(20):
+            if t[0] == "name" and t[1] in self.generics:
+                g = self.generics[t[1]]
+                t = ("name", g, []) if isinstance(g, str) else g
+            elif t[0] == "name" and t[1] in self.aliases and t[1] not in STRUCTS:
+                t = self.aliases[t[1]]
+            else:
+                break
         return t
 
     def param_value(self, name, t, inputs):
         """build the symbolic value of a parameter of declared type t; registers Lean arguments"""
         t = self.resolve(t)
+        if t[0] == "self":
+            return self.struct_value(self.self_ty, "self", inputs)
         if t[0] == "ref":
             return Ref(Slot(self.param_value(name, t[2], inputs)))
+        if t[0] == "name" and t[1] == "InOut":
+            n = BLOCK_SIZES.get(self.self_ty)
+            if n is None:
+                raise Unsupported(f"InOut parameter: block size of {self.self_ty} unknown")
+            arg = self.fresh(name)
+            inputs.append((arg, 8 * n))
+            inp = Arr([Slot(BV(8, f"{arg}.extractLsb' {8 * (n - 1 - i)} 8", atom=False)) for i in range(n)])
+            return InOutV(inp, Arr([Slot(None) for _ in range(n)]))
+        if t[0] == "name" and t[1] in STRUCTS and t[1] not in WIDTH:
+            return self.struct_value(t[1], name, inputs)
         if t[0] == "name" and t[1] in WIDTH:
             arg = self.fresh(name)
             inputs.append((arg, WIDTH[t[1]]))
@@ -799,6 +889,17 @@ class Exec:
         if t[0] == "tup":
             return Arr([Slot(self.param_value(f"{name}{i}", x, inputs)) for i, x in enumerate(t[1])])
         raise Unsupported(f"parameter type {t}")
+
+    def struct_value(self, ty, name, inputs):
+        if ty not in STRUCTS:
+            raise Unsupported(f"struct {ty} not found")
+        fields = {}
+        for fname, fty in STRUCTS[ty]:
+            rt = self.resolve(fty)
+            if rt[0] == "name" and rt[1] in ("PhantomData", "?"):
+                continue
+            fields[fname] = Slot(self.param_value(f"{name}_{fname}", fty, inputs))
+        return Struct(ty, fields)
 
     def const_of(self, v):
         v = self.deref_all(v)
@@ -864,6 +965,8 @@ class Exec:
             base = self.deref_all(self.eval(e[1], env))
             if isinstance(base, Arr) and e[2].isdigit():
                 return base.slots[int(e[2])].v
+            if isinstance(base, Struct) and e[2] in base.fields:
+                return base.fields[e[2]].v
             raise Unsupported(f"field .{e[2]}")
         if k == "mcall":
             return self.mcall(e, env, want)
@@ -1045,9 +1148,13 @@ class Exec:
                     raise Unsupported(f"index {i} out of bounds ({len(base.slots)})")
                 return base.slots[i]
             raise Unsupported("lvalue index into non-array")
-        if k == "field" and e[2].isdigit():
+        if k == "field":
             base = self.deref_all(self.lvalue_value(e[1], env))
-            return base.slots[int(e[2])]
+            if isinstance(base, Struct) and e[2] in base.fields:
+                return base.fields[e[2]]
+            if isinstance(base, Arr) and e[2].isdigit():
+                return base.slots[int(e[2])]
+            raise Unsupported(f"lvalue field .{e[2]}")
         raise Unsupported(f"not an lvalue: {k}")
 
     def lvalue_value(self, e, env):
@@ -1121,6 +1228,19 @@ class Exec:
             return self.iterator(e, env)
         recv = self.eval(recv_e, env, want)
         rv = self.deref_all(recv)
+        if isinstance(rv, InOutV):
+            if name == "get_in":
+                return Ref(Slot(rv.inp))
+            if name == "get_out":
+                return Ref(Slot(rv.out))
+            if name == "reborrow":
+                return rv
+            raise Unsupported(f"InOut method .{name}()")
+        if isinstance(rv, Struct):
+            key = f"{rv.ty}::{name}"
+            if key in self.fns:
+                return self.inline(self.fns[key], [recv] + [self.eval(a, env) for a in args])
+            raise Unsupported(f"method {key} not found")
         if name in ("rotate_left", "rotate_right"):
             a = self.scalar(rv)
             n = self.scalar(self.eval(args[0], env, 32))
@@ -1262,6 +1382,13 @@ class Exec:
             raise Unsupported("mem::swap on non-references")
         if name in ("Default", "default") or (len(p) >= 2 and p[-1] == "default"):
             raise Unsupported("Default::default() (unknown type)")
+        if len(p) >= 2:
+            owner = p[-2]
+            if owner == "Self":
+                owner = self.self_ty
+            owner = self.generics.get(owner, owner)
+            if isinstance(owner, str) and f"{owner}::{name}" in self.fns:
+                name = f"{owner}::{name}"
         if name in self.fns:
             fn = self.fns[name]
             actual = []
@@ -1276,7 +1403,13 @@ class Exec:
         if self.depth > 40:
             raise Unsupported("inlining too deep")
         env = {}
+        saved_self = self.self_ty
+        if getattr(fn, "owner", None):
+            self.self_ty = self.generics.get(fn.owner, fn.owner) if not isinstance(self.generics.get(fn.owner), tuple) else fn.owner
         for (pat, t), v in zip(fn.params, actual):
+            if t[0] == "self":
+                env["self"] = Slot(v)
+                continue
             rt = self.resolve(t)
             if rt[0] == "name" and rt[1] in WIDTH:
                 v = self.scalar(v)
@@ -1297,6 +1430,7 @@ class Exec:
                 r = ret.v
         finally:
             self.depth -= 1
+            self.self_ty = saved_self
         if isinstance(r, BV) and r.const is None and not r.atom:
             r = self.bind(fn.name + "_r", r)  # name the result once: callers may use it several times
         return r
@@ -1465,6 +1599,11 @@ def flatten(v, out, ex):
         out.append(v)
     elif isinstance(v, Arr):
         for s in v.slots:
+            if s.v is None:
+                raise Unsupported("an output element is never written")
+            flatten(s.v, out, ex)
+    elif isinstance(v, Struct):
+        for s in v.fields.values():
             flatten(s.v, out, ex)
     elif v is None:
         pass
@@ -1472,7 +1611,7 @@ def flatten(v, out, ex):
         raise Unsupported(f"cannot return {type(v).__name__}")
 
 
-def translate(crate, path, fname, lean_name, lens=None, cfg=(), extra_files=(), doc="", packed=(), outs_only=(), pack_out=0):
+def translate(crate, path, fname, lean_name, lens=None, cfg=(), extra_files=(), doc="", packed=(), outs_only=(), pack_out=0, generics=None, self_ty=None):
     """returns (lean text, signature description) or raises Unsupported"""
     fns, consts, aliases, errs = find_functions(os.path.join(REPO, path), cfg)
     # siblings: every other source file of the crate (the file of the function itself takes precedence)
@@ -1497,6 +1636,8 @@ def translate(crate, path, fname, lean_name, lens=None, cfg=(), extra_files=(), 
     fn = fns[fname]
     ex = Exec(fns, consts, aliases, lens, crate=crate.replace("-", "_"), packed={k: True for k in packed}, outs_only=outs_only)
     ex.cfg = cfg
+    ex.generics = dict(generics or {})
+    ex.self_ty = self_ty or getattr(fn, "owner", None)
     inputs, env, muts = [], {}, []
     for pat, t in fn.params:
         pname = pat[1] if pat[0] == "pid" else (pat[1][1] if pat[0] == "pref" and pat[1][0] == "pid" else "p")
@@ -1504,6 +1645,15 @@ def translate(crate, path, fname, lean_name, lens=None, cfg=(), extra_files=(), 
         rt = ex.resolve(t)
         if rt[0] == "ref" and rt[1]:
             muts.append(v)
+        if isinstance(v, InOutV):
+            muts.append(v.out)
+            if not pack_out:
+                pack_out = len(v.out.slots)
+        if t[0] == "self":
+            if t[2] and t[1]:
+                muts.append(v)
+            env["self"] = Slot(v)
+            continue
         ex.bind_pat(pat, v, env)
     try:
         r = ex.run_block(fn.body, env)
